@@ -33,7 +33,9 @@ Inductive status :=
 
 Record task := {
   t_name : name; t_waits : list name; t_body : list cmd; t_ctx : ctxid;
-  t_parent : option name; t_orphan : bool; t_height : nat; t_st : status }.
+  t_parent : option name; t_orphan : bool; t_height : nat;
+  t_idx : nat;                   (* number of registered tasks when this one was created *)
+  t_st : status }.
 
 Inductive event :=
 | ESubmitted (n : name) (accepted : bool)
@@ -59,7 +61,7 @@ Definition registered (n : name) (ts : list task) : bool :=
 
 Definition set_status (st : status) (t : task) : task :=
   {| t_name := t_name t; t_waits := t_waits t; t_body := t_body t; t_ctx := t_ctx t;
-     t_parent := t_parent t; t_orphan := t_orphan t; t_height := t_height t; t_st := st |}.
+     t_parent := t_parent t; t_orphan := t_orphan t; t_height := t_height t; t_idx := t_idx t; t_st := st |}.
 
 Definition upd (n : name) (st : status) (ts : list task) : list task :=
   map (fun t => if N.eqb (t_name t) n then set_status st t else t) ts.
@@ -99,7 +101,8 @@ Definition create (q : bool) (sb : subm) (c : ctxid) (parent : option name) (s :
     let h := height_of (s_waits sb) (tasks s) in
     let ok := valid_waits n (s_waits sb) (tasks s) && Nat.leb h 100 && negb (ctx_failed (mroot s) s) in
     let mk st := {| t_name := n; t_waits := s_waits sb; t_body := s_body sb; t_ctx := c;
-                    t_parent := parent; t_orphan := ctx_failed c s; t_height := h; t_st := st |} in
+                    t_parent := parent; t_orphan := ctx_failed c s; t_height := h;
+                    t_idx := length (tasks s); t_st := st |} in
     if ok then
       (emit (ESubmitted n true) (with_counter (S (counter s)) (with_tasks (tasks s ++ [mk (Waiting 0)]) s)), true)
     else if q then (emit (ESubmitted n false) (with_tasks (tasks s ++ [mk Zombie]) s), false)
@@ -202,17 +205,15 @@ Definition subm_cost (ws : list name) (b : list cmd) : nat := length ws + 2 + bo
 Definition task_work (t : task) : nat :=
   match t_st t with
   | Waiting i => (length (t_waits t) - i) + 2 + body_cost (t_body t) + 2
-  | Running pc ph =>
-    body_cost (skipn pc (t_body t)) + 3
-    - match ph with PBefore => 0 | PIn => 1
-          | PSpawned _ | PRejected =>
-            match nth_error (t_body t) pc with Some c => cmd_cost c - 1 | None => 0 end
-      end
+  | Running pc PBefore => body_cost (skipn pc (t_body t)) + 3
+  | Running pc PIn => body_cost (skipn pc (t_body t)) + 2
+  | Running pc _ => body_cost (skipn (S pc) (t_body t)) + 4
   | Closing => 1
   | Finished _ => 0
   | Zombie => 0
   end.
-Definition work (s : state) : nat := fold_right (fun t m => task_work t + m) 0 (tasks s).
+Definition work_l (ts : list task) : nat := fold_right (fun t m => task_work t + m) 0 ts.
+Definition work (s : state) : nat := work_l (tasks s).
 
 (** Histories: [hist P l] — every event [e] of the newest-first log [l] satisfies [P e older]. *)
 Fixpoint hist (P : event -> list event -> Prop) (l : list event) : Prop :=
